@@ -133,7 +133,9 @@ def run(prog, tier):
                     is_out = True  # default mode in|out
                 if is_out:
                     openers += 1
-                    if f is not w:
+                    # a file-local helper that only c3d::write calls (it opens the stream and hands it back) is part of it
+                    only_write = (f.rec.get('internal') or '(anonymous namespace)' in f.qname) and {g_.usr for g_, _c in prog.callers_of(f.usr)} == {w.usr}
+                    if f is not w and not only_write:
                         res.viol('opener', 'output stream opened outside c3d::write', f.loc(n['id']),
                                  'another function opens a file for output: its state is not checked',
                                  function=f.sig, expr='open')
